@@ -545,6 +545,9 @@ pub fn opts(idx: u64, rng: &mut Rng) -> ScenarioOpts {
         tight_gas: 60,
         script_snippets: 16,
         contract_snippets: 9,
+        // every third scenario under non-standard parameters (non-zero base asset id:
+        // fees, refunds and SMO must use the configured base asset, not AssetId::BASE)
+        vary_params: if idx % 3 == 1 { 1000 } else { 0 },
         ..Default::default()
     }
 }
@@ -553,7 +556,7 @@ pub fn run(cfg: &Cfg) -> Report {
     let mons = |sc: &Scenario| -> Vec<Box<dyn StepMonitor>> { vec![Box::new(AssetMon::new(sc))] };
     let d = Drive { prop: "C27", stream: 27, quick: 30_000, thorough: 3_500_000, bus: BusOpts { capture_mem: true, max_steps: 20_000 }, opts: &opts, monitors: &mons, after: None };
     let mut rep = drive(cfg, &d);
-    rep.rule = "generated scripts+contracts (TR incl. to oneself, TRO, CALL with coins, MINT, BURN, SMO, reverts/panics at arbitrary points; gas price 0 in half of the cases, 1..3e6 in the other half). (a) per single-stepped instruction: money receipts vs movement of the free balances (hook) and of the named contract balances in storage (shadow map = world before + receipts), debited account held the amount, $bal of a callee = forwarded amount, TRO wrote exactly the selected unset variable output, no free balance moves without a receipt; (b) at every boundary the balance table in memory = internal free balances; (c) at the end the per-asset ledger of the statement in u128 (inputs from the tx specification; reverted/panicked executions judged with contract balances := before, no mint/burn/message; refund = max fee - ceil((min_gas+gas_used)*price/factor) - tip), plus every (contract, asset) balance = before + receipts. class = (money opcode, context, end state)".into();
+    rep.rule = "generated scripts+contracts (TR incl. to oneself, TRO, CALL with coins, MINT, BURN, SMO, reverts/panics at arbitrary points; gas price 0 in half of the cases, 1..3e6 in the other half; every third scenario with a random non-zero base asset id, chain id and max_inputs). (a) per single-stepped instruction: money receipts vs movement of the free balances (hook) and of the named contract balances in storage (shadow map = world before + receipts), debited account held the amount, $bal of a callee = forwarded amount, TRO wrote exactly the selected unset variable output, no free balance moves without a receipt; (b) at every boundary the balance table in memory = internal free balances; (c) at the end the per-asset ledger of the statement in u128 (inputs from the tx specification; reverted/panicked executions judged with contract balances := before, no mint/burn/message; refund = max fee - ceil((min_gas+gas_used)*price/factor) - tip), plus every (contract, asset) balance = before + receipts. class = (money opcode, context, end state)".into();
     rep.assume("Chargeable::min_gas of the repository is used for the intrinsic gas in the fee (fee arithmetic itself is C18's subject); gas used is the ScriptResult receipt's value");
     rep.assume("free balances are observed through hook H2 (verif_balances); contract balances are read from the MemoryStorage under the VM, which holds the uncommitted state");
     rep.note("for the base asset without a change output the refund is part of the balance left without a change output (nobody receives it), so that ledger does not constrain the fee");
